@@ -71,6 +71,16 @@ func collectSites(d *m.Design, a *m.Attr, v value.V, loc Loc, path []string, dep
 		for i := 0; i+1 < len(v.A); i += 2 {
 			collectSites(d, res.Type.Val, v.A[i+1], loc, append(path, fmt.Sprintf("{%d}", i/2)), depth+1, out)
 		}
+	case m.Union:
+		if v.K != "union" || len(v.A) != 1 {
+			return
+		}
+		for _, f := range res.Type.Fields {
+			if f.Name == v.S {
+				// "|alt": the value of the chosen alternative
+				collectSites(d, f.Attr, v.A[0], loc, append(path, "|"+f.Name), depth+1, out)
+			}
+		}
 	}
 }
 
@@ -87,6 +97,8 @@ func replaceAt(v value.V, path []string, nv value.V, remove bool) value.V {
 		out := value.V{K: "array", A: append([]value.V{}, v.A...)}
 		out.A[i] = replaceAt(v.A[i], path[1:], nv, remove)
 		return out
+	case strings.HasPrefix(p, "|"):
+		return value.V{K: "union", S: v.S, A: []value.V{replaceAt(v.A[0], path[1:], nv, remove)}}
 	case strings.HasPrefix(p, "{"):
 		var i int
 		fmt.Sscanf(p, "{%d}", &i)
@@ -105,7 +117,7 @@ func replaceAt(v value.V, path []string, nv value.V, remove bool) value.V {
 func pathString(path []string) string {
 	var b strings.Builder
 	for i, p := range path {
-		if i > 0 && !strings.HasPrefix(p, "[") && !strings.HasPrefix(p, "{") {
+		if i > 0 && !strings.HasPrefix(p, "[") && !strings.HasPrefix(p, "{") && !strings.HasPrefix(p, "|") {
 			b.WriteString(".")
 		}
 		b.WriteString(p)
